@@ -2,6 +2,7 @@
 from __future__ import annotations
 
 import ast
+import json
 import os
 import subprocess
 import tempfile
@@ -310,12 +311,24 @@ def decode_object(model, st: State, heap: dict, r: int, hint: Optional[T.Ty], de
         hk = T.strip_opt(hint) if hint is not None else None
         kty = hk.a[0] if hk is not None and hk.k in ("dict", "set") and hk.a else None
         vty = hk.a[1] if hk is not None and hk.k == "dict" and len(hk.a) > 1 else None
-        if n is not None and 0 <= n <= 8 and "dkeys" in heap and "dget" in heap:
+        if n is not None and 0 <= n <= 8 and "dhas" in heap and "dget" in heap:
             pairs = []
-            for i in range(n):
+            for i in range(n if "dkeys" in heap else 0):
                 kt = z3.Select(z3.Select(heap["dkeys"], r), i)
                 vt = z3.Select(z3.Select(heap["dget"], r), kt)
                 pairs.append([decode_deep(model, st, heap, kt, kty, depth + 1, seen), decode_deep(model, st, heap, vt, vty, depth + 1, seen)])
+            # the well-formedness link between membership and the key sequence is only assumed where the code iterates;
+            # keys the model makes members without listing them (typically literal string keys of a precondition) are added
+            if kty is None or kty.k in ("str", "any"):
+                shown = {json.dumps(p[0], default=str) for p in pairs}
+                for sid, lit in list(smt.STR.rev.items()):
+                    if lit.startswith("ev:") or lit.startswith("sentinel:") or len(pairs) >= 16:
+                        continue
+                    kt = smt.mk_str(sid)
+                    if z3.is_true(model.eval(z3.Select(z3.Select(heap["dhas"], r), kt), model_completion=True)) and json.dumps(lit) not in shown:
+                        vt = z3.Select(z3.Select(heap["dget"], r), kt)
+                        pairs.append([lit, decode_deep(model, st, heap, vt, vty, depth + 1, seen)])
+                out["$dict_size"] = max(n, len(pairs))
             out["$dict"] = pairs
         return out
     if ci is not None:
